@@ -11,7 +11,7 @@ EXPLANATION = ('Structural decision over the MIR control-flow graph of the stepp
                'object is the moved-in state, score_current only takes accepted scores.')
 
 
-def run(ctx):
+def _run_rules(ctx):
     rep, f, cg = ctx.rep, ctx.facts, ctx.cg
     rep.trust('rustc nightly MIR construction; pk/cfg.py dominators and reachability; pk/mirutil.py provenance tracing')
     rule_writers(ctx, 'WRITERS')
@@ -493,3 +493,13 @@ def thorough(ctx):
         rep.check(verdict == 'ok', 'W', '%s:%s' % (w, kind), 'witness/src/lib.rs', wanted[w] + (' (does not compile)' if kind == 'compile_fail' else ' (twin compiles)'),
                   'witness %s/%s failed: the type-level guarantee "%s" no longer holds for downstream code (or the public API it uses changed)' % (w, kind, wanted[w]))
     rep.floor('W', 'witness doctests', n, 4, 'witness/src/lib.rs')
+
+
+def run(ctx):
+    _run_rules(ctx)
+    from .common import import_obligations
+    # the score carried forward on acceptance is the proposal's (C07.R2): otherwise the returned state's score is not the current score
+    import_obligations(ctx, 'C07', 'R6', only_rules={'R2'}, floor=1)
+    # "the result is the last accepted state", as the command line delivers it: what is written is a result of the stages, not
+    # the state they started from (C10.R1 written-state obligations)
+    import_obligations(ctx, 'C10', 'R7', only_rules={'R1'}, floor=1, only_instances=lambda k: 'written-state' in k)
